@@ -45,6 +45,11 @@ func main() {
 			runF13(res, &cases)
 		case "flood":
 			runFlood(res)
+		case "published":
+			// the published client is observed over a fresh set of histories
+			w := startWorld(res, &cases)
+			w.startPublished()
+			runHistories(a, rng.Fork(), w)
 		case "hist":
 			// a history is re-run on a fresh relay from its recorded events
 			cases = append(cases, replayHistory(c, res)...)
@@ -109,6 +114,7 @@ func main() {
 		// (a) histories on a real relay, (c) the F13 scenario in a child process
 		// the harness's relay is bound first; then the two child scenarios run while the histories do
 		w := startWorld(res, &cases)
+		w.startPublished()
 		childRes := lib.NewResult("C14", a.Seed, a.Tier)
 		childDone := make(chan struct{})
 		go func() { runF13(childRes, &cases); runFlood(childRes); close(childDone) }()
